@@ -55,11 +55,11 @@ def canonical(C: Any, computed: Any) -> Dict[str, Any]:
     return out
 
 
-def order_bases() -> List[Tuple[str, List[Dict[str, Any]]]]:
+def order_bases(depth: int = 3) -> List[Tuple[str, List[Dict[str, Any]]]]:
     from rp2verif import frdriver as D
 
     out = []
-    for h in D.histories(3):
+    for h in D.histories(depth):
         if len(h) < 2:
             continue
         specs = D.specs_for(h, "a", "chrono")
@@ -295,8 +295,8 @@ def main(tier: str, budget_s: Optional[float] = None) -> int:
         seeds_used = seeds + [s for s in range(40) if s not in seeds][:6]
         seed_shapes = ["all_types", "multi", "same_instant", "transfers"]
     else:
-        seeds_used = seeds + [s for s in range(40) if s not in seeds][:16]
-        seed_shapes = ["all_types", "multi", "transfers", "same_instant"]
+        seeds_used = sorted(set(seeds) | set(range(48)))
+        seed_shapes = sorted(CS.shapes())
     tasks: List[Dict[str, Any]] = []
     for shape in seed_shapes:
         for s in seeds_used:
@@ -306,6 +306,8 @@ def main(tier: str, budget_s: Optional[float] = None) -> int:
         for s in seeds_used:
             tasks.append({"kind": "seed", "mode": "fresh", "country": cc, "shape": "multi", "seed": s, "runs": [{"opts": [], "seed": s}]})
     histories = [[]] + [[a] for a in range(len(MENU))] + [[a, b] for a in range(len(MENU)) for b in range(len(MENU))]
+    if tier != "quick":
+        histories += [[a, b, c] for a in range(len(MENU)) for b in range(len(MENU)) for c in range(len(MENU))]
     for shape in (["multi"] if tier == "quick" else ["multi", "all_types"]):
         tasks.append({"kind": "fresh-dir", "mode": "forked", "shape": shape, "runs": [{"opts": REFERENCE}]})
         tasks.append({"kind": "twice", "mode": "forked", "shape": shape, "runs": [{"opts": REFERENCE, "clean_after": True}, {"opts": REFERENCE}]})
@@ -406,8 +408,8 @@ def main(tier: str, budget_s: Optional[float] = None) -> int:
 
     # (a) row / table orders
     t1 = time.time()
-    bases = order_bases()
-    n = max(1, min(len(bases), common.NPROC * 4))
+    bases = order_bases(3 if tier == "quick" else 4)
+    n = max(1, min(len(bases), common.NPROC * (4 if tier == "quick" else 64)))
     chunks3 = [bases[i::n] for i in range(n)]
     results3, done3 = common.pmap(order_worker, chunks3, deadline=deadline)
     complete = complete and done3 == len(chunks3)
